@@ -83,6 +83,13 @@ func (c *Ctx) BuildQuery(o *Obligation, produceModels bool) (string, int) {
 		if a.FromObl != "" && c.noAssume[a.FromObl] {
 			continue
 		}
+		if a.NeedTag != "" && !o.Tags[a.NeedTag] {
+			continue
+		}
+		if o.ExpectFail && strings.Contains(a.Text, "(forall ") {
+			// reachability probes must be decidable as sat: quantified hypotheses are dropped (fewer hypotheses only make the probe weaker)
+			continue
+		}
 		if a.Def != "" {
 			defIdx[a.Def] = append(defIdx[a.Def], i)
 		} else {
@@ -136,15 +143,55 @@ func (c *Ctx) BuildQuery(o *Obligation, produceModels bool) (string, int) {
 		b.WriteString(d)
 		b.WriteByte('\n')
 	}
+	// ground unfolding of recursive spec functions at the applications that occur in this query
+	var hyp strings.Builder
+	for i, a := range c.asserts {
+		if included[i] {
+			hyp.WriteString(a.Text)
+			hyp.WriteByte('\n')
+		}
+	}
+	hyp.WriteString(o.Guard.S)
+	hyp.WriteByte('\n')
+	hyp.WriteString(o.Goal.S)
+	unfolds := c.unfoldInstances(hyp.String())
 	// declarations actually used
 	used := map[string]bool{}
 	for s := range relevant {
 		used[s] = true
 	}
+	for _, u := range unfolds {
+		for _, s := range c.symbolsOf(u) {
+			used[s] = true
+		}
+	}
+	// defined functions pull in the symbols of their bodies
+	for changed := true; changed; {
+		changed = false
+		for _, d := range c.decls {
+			if !strings.HasPrefix(d, "(define-fun") {
+				continue
+			}
+			f := strings.Fields(d)
+			if len(f) < 2 || !used[f[1]] || used["#body:"+f[1]] {
+				continue
+			}
+			used["#body:"+f[1]] = true
+			for _, s := range c.symbolsOf(d) {
+				if !used[s] {
+					used[s] = true
+					changed = true
+				}
+			}
+		}
+	}
 	for _, d := range c.decls {
 		if strings.HasPrefix(d, "(define-fun") {
-			b.WriteString(d)
-			b.WriteByte('\n')
+			f := strings.Fields(d)
+			if len(f) >= 2 && used[f[1]] {
+				b.WriteString(d)
+				b.WriteByte('\n')
+			}
 			continue
 		}
 		// (declare-const name sort) / (declare-fun name ...)
@@ -162,6 +209,9 @@ func (c *Ctx) BuildQuery(o *Obligation, produceModels bool) (string, int) {
 			b.WriteString(")\n")
 			nh++
 		}
+	}
+	for _, u := range unfolds {
+		b.WriteString("(assert " + u + ")\n")
 	}
 	b.WriteString("(assert " + o.Guard.S + ")\n")
 	b.WriteString("(assert (not " + o.Goal.S + "))\n")
